@@ -119,7 +119,12 @@ def run(ctx: Ctx):
                 at = gv.guard_atoms(cfg.stmt_node_containing(a), stable_only=False)
                 ctx.ob("C15-O5", "R1 STATUS-GUARD", d, "bridge iff low[child] > discovery[v] (strict), for tree edges only", atom_of(f"low[{w}] > discovery[{v}]") in at and f"{w} not in discovery" in at, f"{sorted(at)}", node=a)
                 edge = [n for n in own_nodes(d.node) if isinstance(n, ast.Assign) and ast.unparse(n.targets[0]) == ast.unparse(a.args[0])]
-                ctx.ob("C15-O5", "R1 STATUS-GUARD", d, "published edge is the tree edge (v, child) in canonical order", len(edge) == 1 and ast.unparse(edge[0].value) == f"({v}, {w}) if {v} < {w} else ({w}, {v})", "", node=a)
+                forms = sorted(ast.unparse(e_.value) for e_ in edge)
+                canon_f = f"({v}, {w}) if {v} < {w} else ({w}, {v})"
+                ctx.ob("C15-O5", "R1 STATUS-GUARD", d, "published edge is the tree edge (v, child): smaller label first, or in tree direction when the labels cannot be compared", canon_f in forms and set(forms) <= {canon_f, f"({v}, {w})", f"({w}, {v})"}, f"{forms}", node=a)
+                cmp_sites = [e_ for e_ in edge if ast.unparse(e_.value) == canon_f]
+                guarded = all(any(isinstance(t_, ast.Try) and any(e_ is x for b_ in t_.body for x in ast.walk(b_)) and any(h.type is not None and "TypeError" in ast.unparse(h.type) for h in t_.handlers) for t_ in own_nodes(d.node)) for e_ in cmp_sites)
+                ctx.ob("C15-O5", "R31 NO-UNDEFINED", d, "comparing the two labels of a bridge cannot end the call (labels are any hashables: None next to ints, strings next to ints)", bool(cmp_sites) and guarded, f"`{canon_f}` outside a `try .. except TypeError`: bridges of a graph with unorderable labels are not returned, the call raises (ledger row 81)", node=a)
         tt = ast.unparse(f.node)
         ctx.ob("C15-O5", "R29 EXACTLY-ONCE", f, "every undiscovered node starts a DFS as a root", "for v in node_list:\n        if v not in discovery:\n            parent[v] = _ROOT\n            dfs(v)" in tt, "", node=f.node)
         rootdef = [n for n in ctx.repo.module("articulation").tree.body if isinstance(n, ast.Assign) and ast.unparse(n.targets[0]) == "_ROOT"]
@@ -496,7 +501,13 @@ def _v_bridges_scan_stops_early(tree):
     M.insert(g, "low[v] = min(low[v], low[w])", "if len(discovery) == n:\n    break", after=True)
 
 
+def _v_bridge_labels_compared_bare(tree):
+    g = M.find_func(tree, "bridges.dfs")
+    M.replace_stmt(g, lambda s: isinstance(s, ast.Try), M.stmts("edge = (v, w) if v < w else (w, v)"))
+
+
 VARIANTS = [
+    M.Variant("bridges orders the two labels of a bridge with a bare `<`: TypeError for None next to an int (original defect, ledger row 81)", AR, _v_bridge_labels_compared_bare, "C15-O5"),
     M.Variant("bridges stops scanning a neighbour list once every node is numbered (seed C15-T)", AR, _v_bridges_scan_stops_early, "C15-O5"),
     M.Variant("pagerank binds max_diff only inside the sweep loop: max_iter=0 raises where the Rust kernel answers MAX_ITER (original defect, ledger row 63)", PR, _v_pagerank_max_diff_unbound, "C15-G1"),
     M.Variant("pagerank_edges no longer forwards tol (seed C15-R)", PR, _v_pagerank_edges_drops_tol, "C15-G16"),
